@@ -129,6 +129,22 @@ def run(ctx: Ctx, replay: str | None) -> None:
     scns = res.prints.get("SCN", [])
     if len(scns) < 100:
         raise MachineryError(f"only {len(scns)} scenarios exported")
+    # the same model with leaves admitted in `tensors` (the identity computation): a separate, smaller run that
+    # explores only the calls with at least one leaf among the tensors
+    lcfg = cfg.replace('PreModes = {"none", "all"}', 'PreModes = {"none", "all", "leafout"}')
+    lmod = 6 if quick else 3
+    lcfg = lcfg.replace(f"SampleMod = {mod}", f"SampleMod = {lmod}").replace(f"SamplePick = {ctx.seed % mod}", f"SamplePick = {ctx.seed % lmod}")
+    if quick:
+        lcfg = lcfg.replace("MaxOps = 2", "MaxOps = 1")
+    lres = run_tlc("Backward", cfg_text=lcfg, workers="auto", seed=ctx.seed, timeout=3000)
+    ctx.add_tlc(lres)
+    if lres.violated:
+        raise MachineryError(f"Backward.tla (leaves among the tensors): implementation layer violates {lres.violated}\n{lres.cex[:2000]}")
+    lscn = lres.prints.get("SCN", [])
+    if len(lscn) < 30 or not all(any(s["prog"][t - 1]["op"] == "leaf" for t in s["tensors"]) for s in lscn):
+        raise MachineryError(f"leaf-output run exported {len(lscn)} scenarios (expected >= 30, each with a leaf among the tensors)")
+    ctx.extra["leaf_output_scenarios_replayed"] = len(lscn)
+    scns = scns + lscn
     ctx.exhaustive = False
     ctx.extra["model_exhaustive"] = True
     ctx.extra["replayed_fraction_of_scenarios"] = f"1/{mod} (content hash)"
